@@ -24,6 +24,10 @@ def main():
     for modname, fn, kw in specs:
         if a.only and a.only not in (fn, kw.get("name", "")):
             continue
+        kw = dict(kw)
+        tiers = kw.pop("tiers", None)
+        if tiers and a.tier not in tiers:
+            continue
         tp = time.time()
         try:
             mod = importlib.import_module("parts." + modname)
